@@ -167,6 +167,7 @@ type CheckOpts struct {
 	Rng        *mrand.Rand
 	MaxSamples int // sample coordinates checked (0 = all)
 	MaxRanges  int // [from,to) ranges checked (0 = all)
+	MaxAxes    int // rows and columns whose halves are read, per axis (0 = all)
 	SkipReader bool
 	// ErrOK accepts an error from a read path (fault-injecting configurations): errors are
 	// collected in Errors instead of being reported as discrepancies. Wrong data is never accepted.
@@ -230,6 +231,9 @@ func (sq *Square) CheckAccessor(ctx context.Context, acc eds.Accessor, o *CheckO
 	// axis halves
 	for _, ax := range []rsmt2d.Axis{rsmt2d.Row, rsmt2d.Col} {
 		for i := 0; i < size; i++ {
+			if o.MaxAxes > 0 && size > o.MaxAxes && o.Rng.IntN(size) >= o.MaxAxes && i != 0 && i != size-1 && i != w {
+				continue // large squares: a random subset of the axes, the first, the last and the first parity one always
+			}
 			half, err := acc.AxisHalf(ctx, ax, i)
 			if err != nil {
 				errOrFail(fmt.Sprintf("AxisHalf(%v,%d)", ax, i), err)
@@ -313,9 +317,17 @@ func (sq *Square) CheckAccessor(ctx context.Context, acc eds.Accessor, o *CheckO
 	// ranges
 	type rg struct{ from, to int }
 	var ranges []rg
-	for f := 0; f < w*w; f++ {
-		for t := f + 1; t <= w*w; t++ {
-			ranges = append(ranges, rg{f, t})
+	if o.MaxRanges > 0 && w*w > 1024 {
+		// large squares: too many [from,to) pairs to list; draw them (spans of up to three rows)
+		for len(ranges) < 4*o.MaxRanges {
+			f := o.Rng.IntN(w * w)
+			ranges = append(ranges, rg{f, min(w*w, f+1+o.Rng.IntN(3*w))})
+		}
+	} else {
+		for f := 0; f < w*w; f++ {
+			for t := f + 1; t <= w*w; t++ {
+				ranges = append(ranges, rg{f, t})
+			}
 		}
 	}
 	if o.MaxRanges > 0 && len(ranges) > o.MaxRanges {
